@@ -248,7 +248,7 @@ pub fn exec_mode(cx: &mut Ctx, c: &Case, do_enc: bool, do_dec: bool) {
     }
     // one case in four also drives the slice and parallel-block entry points with distinct blocks
     if c.seed % 4 == 0 {
-        let n = 1 + (c.seed >> 8) as usize % 5;
+        let n = 1 + (c.seed >> 8) as usize % 13;
         let r = guarded(|| match c.nb {
             32 => run_multi!(Threefish256, &key, t0, t1, c.use_new, &blk, n),
             64 => run_multi!(Threefish512, &key, t0, t1, c.use_new, &blk, n),
